@@ -39,6 +39,14 @@ def run(ctx):
         ctx.notes.append("race detector run (%s): %d reports" % (tags, n))
         if n == 0 and "FAIL" in rep["stdout"].splitlines()[-1:]:
             raise vlib.MachineryError("race run failed without a race report:\n" + rep["stdout"][-1500:])
+    # the registration entry points and the counters, from user goroutines and from callbacks of a starting engine
+    for tags in (["verif", "verif gc_opt"]):
+        rep = vlib.go_harness(ctx, ".", "TestVerifRaceRegister", name="race-register-" + tags.replace(" ", "+"), tags=tags, race=True, timeout=900, netns=True, allow_fail=True)
+        vlib.absorb(ctx, rep, "race-register")
+        n = races(ctx, rep["stdout"], "registration entry points, " + tags)
+        ctx.notes.append("race detector run (registration entry points, %s): %d reports" % (tags, n))
+        if n == 0 and "FAIL" in rep["stdout"].splitlines()[-1:]:
+            raise vlib.MachineryError("race run failed without a race report:\n" + rep["stdout"][-1500:])
     # the pooled ring buffers are shared by all loops: the pool's self-calibration under the race detector
     rep = vlib.go_harness(ctx, "pkg/pool/ringbuffer", "TestVerifRingPoolRace", name="race-ringpool", race=True, timeout=900, allow_fail=True,
                           env={"VERIF_POOL_ROUNDS": 60000 if ctx.thorough else 30000})
